@@ -7,7 +7,11 @@ package dag
 // All shapes of 3 tasks, every outcome of every task, every completion order.
 func VerifC13_Ordering() {
 	vNativeReset()
-	s := newScenario(scenarioOpts{n: 3, outcomes: oSkip, buffer: true})
+	n := 3
+	if vThorough() {
+		n = 4
+	}
+	s := newScenario(scenarioOpts{n: n, outcomes: oSkip, buffer: true})
 	s.build()
 	err := s.run()
 	vObserve("failed", err != nil)
